@@ -23,6 +23,7 @@ import (
 	"time"
 
 	"github.com/rqlite/rqlite/v10/command/proto"
+	"github.com/rqlite/rqlite/v10/snapshot"
 )
 
 type c38Hist struct {
@@ -295,6 +296,42 @@ func (h *c38Hist) do(kind string, r *vfRng, maxNodes int) string {
 			h.rep.Count("snapshot-declined")
 		}
 		return "snapshot-compact"
+	case "restart":
+		// the process of the (only voter / current) leader restarts: Store.Close + Store.Open on the same
+		// directory and address. Open takes the fast path when a snapshot made at Close is there:
+		// fsmIdx is set to the snapshot index and the ReadyTarget is reset WITHOUT being signalled.
+		upVoters := 0
+		for _, v := range voters {
+			if n := h.node(v); n != nil && n.Up {
+				upVoters++
+			}
+		}
+		if upVoters == 2 {
+			return "" // the other voter alone has no quorum while this one is away
+		}
+		h.c.Stop(leader)
+		if err := h.c.Restart(leader); err != nil {
+			h.aborted = "restart: " + err.Error()
+			return ""
+		}
+		li, _, err := snapshot.LatestIndexTerm(leader.S.snapshotDir)
+		if err != nil {
+			h.aborted = "snapshot index after restart: " + err.Error()
+			return ""
+		}
+		h.emit(fmt.Sprintf("%s reopen %d", leader.Name, li), "ok")
+		h.rep.Count("model-event:reopen")
+		if leader.S.numSnapshotsSkipped.Load() == 0 {
+			// not the fast path: raft restored the snapshot through fsmRestore
+			h.emit(fmt.Sprintf("%s restore %d", leader.Name, li), "ok")
+			h.rep.Count("model-event:restore-at-open")
+		} else {
+			h.rep.Count("restart:fast-path")
+		}
+		if h.c.Leader(60*time.Second) == nil {
+			h.aborted = "no leader after restart"
+		}
+		return "restart"
 	case "join-voter", "join-nonvoter":
 		up := 0
 		for _, n := range h.c.Nodes {
@@ -392,7 +429,7 @@ func (h *c38Hist) do(kind string, r *vfRng, maxNodes int) string {
 var c38Kinds = []struct {
 	k string
 	w int
-}{{"write", 18}, {"strong", 8}, {"noopcmd", 5}, {"barrier", 10}, {"snapshot", 4}, {"snapshot-compact", 8}, {"join-voter", 14},
+}{{"write", 18}, {"strong", 8}, {"noopcmd", 5}, {"barrier", 10}, {"snapshot", 4}, {"snapshot-compact", 8}, {"restart", 7}, {"join-voter", 14},
 	{"join-nonvoter", 8}, {"rejoin-same", 5}, {"remove", 12}, {"stepdown", 14}}
 
 func c38Pick(r *vfRng) string {
@@ -576,6 +613,9 @@ func TestVerifC38(t *testing.T) {
 		// compaction of a non-command tail (the ErrLogNotFound branch of fsmWaitIndex), then a node that can
 		// only catch up by snapshot install, then leadership moves to it
 		{"write", "barrier", "join-nonvoter", "snapshot-compact", "barrier", "snapshot-compact", "join-voter", "stepdown", "barrier", "snapshot-compact"},
+		// a restart (fast path) between a strong read and linearizable reads, with and without a
+		// non-command tail, and no write afterwards
+		{"strong", "restart", "barrier", "restart", "join-nonvoter", "restart", "snapshot-compact", "restart"},
 	}
 	// every history runs under a watchdog: a raft call that never returns abandons that
 	// history (noted with a goroutine dump) instead of blocking the check
